@@ -45,7 +45,7 @@ class SchedLock:
 
 
 class Scheduler:
-    def __init__(self, opcodes=False, step_timeout=5.0):
+    def __init__(self, opcodes=False, step_timeout=1.5):
         self.opcodes = opcodes
         self.step_timeout = step_timeout
 
@@ -69,7 +69,7 @@ class Scheduler:
         if t is None:
             return
         self.status[t] = why
-        self.back.release()
+        self.arrived[t].release()
         self.go[t].acquire()
         self.status[t] = "running"
 
@@ -98,7 +98,7 @@ class Scheduler:
             sys.settrace(None)
             self.done.add(t)
             self.status[t] = "done"
-            self.back.release()
+            self.arrived[t].release()
 
     # ---- scheduler side ---------------------------------------------------------------------
     def project(self, av):
@@ -111,7 +111,8 @@ class Scheduler:
         n = len(fns)
         self.local = threading.local()
         self.go = {t: threading.Semaphore(0) for t in fns}
-        self.back = threading.Semaphore(0)
+        self.arrived = {t: threading.Semaphore(0) for t in fns}
+        self.external = set()       # threads blocked on something the scheduler does not control
         self.status = {t: "new" for t in fns}
         self.results = {}
         self.done = set()
@@ -120,43 +121,53 @@ class Scheduler:
         self.saw_block = False
         self.events = []
         self.steps = {t: 0 for t in fns}
-        old_lock = Av._CACHE_LOCK
+        had_lock = "_CACHE_LOCK" in vars(Av)
+        old_lock = vars(Av).get("_CACHE_LOCK")
         lock = SchedLock(self)
-        Av._CACHE_LOCK = lock
+        if had_lock:
+            Av._CACHE_LOCK = lock          # otherwise the code synchronises differently: real blocking is
+                                           # detected by the step timeout and handled as "externally blocked"
         threads = {t: threading.Thread(target=self._worker, args=(t, fn), daemon=True) for t, fn in fns.items()}
         for th in threads.values():
             th.start()
-        proj = self.project(av)
+        self.proj = self.project(av)
         stuck = False
         total = 0
         try:
             while len(self.done) < n and total < max_steps:
-                runnable = [t for t in fns if t not in self.done and t not in self.blocked]
+                # a thread that was blocked on an uncontrolled primitive (e.g. a real lock held by a
+                # preempted thread) becomes schedulable again once it reaches its next yield point
+                for t in list(self.external):
+                    if self.arrived[t].acquire(blocking=False):
+                        self.external.discard(t)
+                        self._after_step(t, av)
+                runnable = [t for t in fns if t not in self.done and t not in self.blocked and t not in self.external]
                 if not runnable:
                     if self.blocked and lock.owner is None:
                         self.blocked.clear()
                         continue
+                    if self.external:
+                        # everything else is finished or waiting: give the externally blocked threads time
+                        t = next(iter(self.external))
+                        if self.arrived[t].acquire(timeout=self.step_timeout):
+                            self.external.discard(t)
+                            self._after_step(t, av)
+                            continue
                     stuck = True
                     break
                 t = policy({"runnable": runnable, "steps": self.steps, "done": self.done, "blocked": self.blocked})
                 if t not in runnable:
                     t = runnable[0]
                 self.go[t].release()
-                if not self.back.acquire(timeout=self.step_timeout):
-                    # the thread did not reach a yield point: it is blocked on something we do not control
-                    self.blocked.add(t)
-                    stuck = True
-                    break
-                self.steps[t] += 1
+                if not self.arrived[t].acquire(timeout=self.step_timeout):
+                    self.external.add(t)
+                    self.saw_block = True
+                    continue
                 total += 1
-                p2 = self.project(av)
-                if p2 != proj:
-                    self._emit(t, proj, p2, av)
-                    proj = p2
-                if t in self.done:
-                    self.events.append({"t": t, "ev": "Return"})
+                self._after_step(t, av)
         finally:
-            Av._CACHE_LOCK = old_lock
+            if had_lock:
+                Av._CACHE_LOCK = old_lock
             if stuck or total >= max_steps:
                 # let everything run free so that no thread is left waiting on our semaphores
                 for t in fns:
@@ -166,6 +177,15 @@ class Scheduler:
                 th.join(timeout=5)
         return {"results": self.results, "events": self.events, "stuck": stuck, "steps": dict(self.steps),
                 "saw_block": self.saw_block}
+
+    def _after_step(self, t, av):
+        self.steps[t] += 1
+        p2 = self.project(av)
+        if p2 != self.proj:
+            self._emit(t, self.proj, p2, av)
+            self.proj = p2
+        if t in self.done:
+            self.events.append({"t": t, "ev": "Return"})
 
     def _emit(self, t, p, q, av):
         if p[2] != q[2]:
